@@ -137,6 +137,8 @@ def compare(interp, op, a, b, node):
         return r
     if isinstance(op, (ast.Is, ast.IsNot)):
         def f(x, y):
+            if (x is None and isinstance(y, OpaqueNum)) or (y is None and isinstance(x, OpaqueNum)):
+                return False if isinstance(op, ast.Is) else True
             if is_opaque(x) or is_opaque(y): return Opaque("identity of opaque value")
             if x is None or y is None: r = (x is None and y is None)
             elif isinstance(x, (Lib, Func)) and isinstance(y, (Lib, Func)):
